@@ -318,9 +318,9 @@ func runC12(env *Env, s Scenario) {
 		secrets := []string{sc.Secondary}
 		if sc.PlatLogin != "" {
 			if sr.OpenRec.Err == nil {
-				env.Probe("platform-on-open-sequence-completed" + map[bool]string{true: "(dialogue)"}[sc.GateByDialogue])
+				env.Probe("platform-on-open-sequence-completed" + map[bool]string{true: "(dialogue)"}[sc.GateByDialogue]+map[bool]string{true: "(variant)"}[sc.PlatVariant])
 			} else {
-				env.Probe("platform-on-open-sequence-failed:" + ErrClass(sr.OpenRec.Err) + map[bool]string{true: "(dialogue)"}[sc.GateByDialogue])
+				env.Probe("platform-on-open-sequence-failed:" + ErrClass(sr.OpenRec.Err) + map[bool]string{true: "(dialogue)"}[sc.GateByDialogue]+map[bool]string{true: "(variant)"}[sc.PlatVariant])
 			}
 			secrets = append(secrets, sc.PlatLogin)
 		}
